@@ -227,6 +227,29 @@ theorem C07_held_refines_partial (b : B) (hinv : Inv b) (c id : Nat) (hl : b.ali
       exact ⟨(hp.trans (entriesAfterUnsub_perm c topics _ _ hh.perm)).trans (by rw [e1]),
         fun h hm => hh.valid h (List.mem_filter.mp hm).1⟩
 
+/-- the full statement of the SUBSCRIBE half: all filters -/
+def C07_held_refines_full : Prop :=
+  ∀ (b : B) (c id : Nat) (s : Mqtt.Spec.Broker.S) (topics : List (Bytes × Nat)),
+    Inv b → b.alive c = true → (Mqtt.Spec.Broker.getConn s c).isSome = true → HeldInv b.topics.sroot s.held →
+    HeldInv (packet b c (.subscribe id topics)).1.topics.sroot
+      (Mqtt.Spec.Broker.step1 s (.packet c (.subscribe id topics))).1.held
+
+/-- False of the code as it is (finding B3): the filter "/a" (first level
+empty) is stored under the path of "+/a". -/
+theorem C07_held_refines_full_counterexample : ¬ C07_held_refines_full := by
+  intro h
+  have h0 : HeldInv exState.topics.sroot [] := by
+    have : abs exState.topics.sroot = [] := by decide
+    exact ⟨by rw [this]; exact List.Perm.refl _, by simp⟩
+  have := (h exState 1 1 { conns := [⟨1, [97], true, none, []⟩] } [([47, 97], 1)] (C07_inv_run _) (by decide)
+    (by decide) h0).perm
+  have e1 : abs (packet exState 1 (.subscribe 1 [([47, 97], 1)])).1.topics.sroot = [([[43], [97]], 1, 1)] := by
+    decide
+  have e2 : (Mqtt.Spec.Broker.step1 { conns := [⟨1, [97], true, none, []⟩] }
+      (.packet 1 (.subscribe 1 [([47, 97], 1)]))).1.held = [⟨1, [47, 97], 1⟩] := by decide
+  rw [e1, e2] at this
+  exact absurd (List.perm_singleton.mp this) (by decide)
+
 /-- non-vacuity: connection 1 subscribes "a/+" (1), "a/b" (2), "a/+" again (0):
 the later grant replaces the earlier; then unsubscribes "a/b"; the in-process
 subscriber's entry is untouched throughout. -/
